@@ -75,37 +75,40 @@ inductive Fetch
   | err                                -- filesystem.Run returned an error
 deriving Inhabited
 
-/-- one iteration's "what were the packages of this file in view `i`" -/
-def fetch (h : History) (cancelAt : Option Nat) (f i : Nat) (s : St) : Fetch :=
+/-- one iteration's "what were the packages of this file in view `i`". `diff i` is the answer of
+`filesExistInLayer` for layer `i` (does the layer's OWN diff have an entry at the location?) — an observation of its
+own: the loop trusts it to say whether the layer changed what the extractor sees there. For a location that every
+layer touches only by writing / linking / deleting that very path it is `inDiff h i`. -/
+def fetch (h : History) (diff : Nat → Bool) (cancelAt : Option Nat) (f i : Nat) (s : St) : Fetch :=
   match s.cache (f, i) with
   | some ps => .pkgs ps s
   | none =>
     match viewAt h i with
     | none => .pkgs [] ⟨s.cache.insert (f, i) [], s.runs⟩             -- Stat: fs.ErrNotExist → no packages
     | some ps =>
-      if inDiff h i then
+      if diff i then
         (if cancelled cancelAt s.runs then .err
          else .pkgs ps ⟨s.cache.insert (f, i) ps, s.runs + 1⟩)        -- re-extract view i
       else .skip
 
 /-- `for i := len-2; i >= 0; i--` for one package: `cnt = i + 1`, `last = lastScannedLayerIndex`.
 Returns the index into `chainLayerDetailsList` (`none`: LayerDetails stays unset) and the state. -/
-def loop (h : History) (cancelAt : Option Nat) (f : Nat) (p : Pkg) : (cnt : Nat) → (last : Nat) → St → Option Nat × St
+def loop (h : History) (diff : Nat → Bool) (cancelAt : Option Nat) (f : Nat) (p : Pkg) : (cnt : Nat) → (last : Nat) → St → Option Nat × St
   | 0, _, s => (some 0, s)                                 -- !foundOrigin → chainLayerDetailsList[0]
   | i+1, last, s =>
-    match fetch h cancelAt f i s with
+    match fetch h diff cancelAt f i s with
     | .err => (none, s)                                    -- traceFailed: the package gets no layer details
-    | .skip => loop h cancelAt f p i last s
+    | .skip => loop h diff cancelAt f p i last s
     | .pkgs ps s' =>
-      if ps.contains p then loop h cancelAt f p i i s'     -- lastScannedLayerIndex = i
+      if ps.contains p then loop h diff cancelAt f p i i s'     -- lastScannedLayerIndex = i
       else (some last, s')                                 -- origin = lastScannedLayerIndex; break
 
 /-- the trace of one package of file `f` -/
-def traceC (h : History) (cancelAt : Option Nat) (f : Nat) (p : Pkg) (s : St) : Option Nat × St :=
-  loop h cancelAt f p (h.length - 1) (h.length - 1) s
+def traceC (h : History) (diff : Nat → Bool) (cancelAt : Option Nat) (f : Nat) (p : Pkg) (s : St) : Option Nat × St :=
+  loop h diff cancelAt f p (h.length - 1) (h.length - 1) s
 
 /-- without a cache and without cancellation -/
-def trace (h : History) (p : Pkg) : Option Nat := (traceC h none 0 p St.empty).1
+def trace (h : History) (p : Pkg) : Option Nat := (traceC h (inDiff h) none 0 p St.empty).1
 
 /-- `isPackageTraceable`: only packages of filesystem extractors with at least one location are traced; the
 others are skipped (`continue`) and keep no layer details -/
@@ -113,11 +116,11 @@ def traceable (fromFilesystemExtractor : Bool) (nLocations : Nat) : Bool :=
   fromFilesystemExtractor && decide (nLocations > 0)
 
 /-- `for _, pkg := range inventory.Packages`: cache and context are shared by all packages of all files -/
-def populate (img : Nat → History) (cancelAt : Option Nat) : List (Nat × Pkg) → St → List (Option Nat)
+def populate (img : Nat → History) (diff : Nat → Nat → Bool) (cancelAt : Option Nat) : List (Nat × Pkg) → St → List (Option Nat)
   | [], _ => []
   | (f, p) :: rest, s =>
-    let r := traceC (img f) cancelAt f p s
-    r.1 :: populate img cancelAt rest r.2
+    let r := traceC (img f) (diff f) cancelAt f p s
+    r.1 :: populate img diff cancelAt rest r.2
 
 /-! ### history entries ↔ layers ↔ chain-layer indices (`initializeChainLayers`) -/
 
